@@ -5,4 +5,6 @@ package syslog
 
 //@ func (a Accounter) Handle(response tq.Response, request tq.Request)
 //@   implements tq.Handler.Handle
+//@   ensures[C12] ghost.sinkWrites <= old(ghost.sinkWrites) + 1
+//@   ensures[C12] ghost.acctStatus == tq.AcctReplyStatusSuccess ==> (ghost.sinkWrites == old(ghost.sinkWrites) + 1 && ghost.sinkAtReply == ghost.sinkWrites)
 //@   requires a.loggerProvider != nil
